@@ -92,6 +92,7 @@ def build():
     inline = {"bt.core.is_zero", "bt.core.SecurityBase.commission"}
     loops = {
         ("bt.core.SecurityBase.allocate", 0): ca.ALLOC_LOOP,
+        ("bt.core.SecurityBase.allocate", 1): ca.ALLOC_STEP_UP,
         ("bt.core.StrategyBase.update", 0): st_.LOOP1,
         ("bt.core.StrategyBase.update", 1): st_.LOOP2,
         ("bt.core.StrategyBase.update", 2): st_.LOOP3,
